@@ -6,7 +6,7 @@ import itertools
 import json
 import pickle
 
-from .common import add_failure, bump, new_outcome
+from .common import add_failure, bump, load_known, new_outcome
 
 PROP = "C10"
 PROPS_FILES = ["CogentModel/Props/C10.lean"]
@@ -142,9 +142,11 @@ def spec_check(ctx, budget):
     for k in reg:
         bump(out, "registry_covered_by", ",".join(f for f in H.COVERS.get(k, ["(none)"]) if f in H.FAMILIES) or "(none)")
     scale = budget if not ctx.thorough else budget * 1.0
+    known = load_known(PROP)
+    kept_per_known = {}
     for fam, (gen, routes) in H.FAMILIES.items():
         rng = ctx.subrng(f"spec:{fam}:{budget}")
-        n = max(2, int(QUICK_N[fam] * scale))
+        n = max(2, int(QUICK_N[fam] * scale * (1.0 if ctx.thorough else 0.75)))
         for i in range(n):
             if fam == "lf":
                 rec = gen(rng, optimise=(i % 3 == 2))
@@ -167,6 +169,15 @@ def spec_check(ctx, budget):
                 else:
                     sig, what, exp, got = r
                     bump(out, "failed", sig)
+                    # keep every failure that no listed finding explains; of the explained ones keep a few per finding,
+                    # so that the bounded failure list can never crowd out an unexplained failure
+                    probe = dict(sig=sig, input=dict(recipe=rec, route=route))
+                    hit = next((k["id"] for k in known if match_finding(probe, k)), None)
+                    if hit is not None:
+                        kept_per_known[hit] = kept_per_known.get(hit, 0) + 1
+                        bump(out, "explained_by", hit)
+                        if kept_per_known[hit] > 4:
+                            continue
                     add_failure(out, "spec", what, dict(recipe=rec, route=route), exp if not isinstance(exp, dict) or len(str(exp)) < 600 else "(observation of the original)", got, confirmed=True, sig=sig, maxkeep=400)
     return out
 
@@ -233,7 +244,7 @@ def correspondence(ctx):
     rng = ctx.subrng("corr")
     text_mt = new_moltype.get_moltype("text")
     alpha = text_mt.most_degen_alphabet()
-    cases = _chains(ctx, rng, ctx.budget(2500, 40000))
+    cases = _chains(ctx, rng, ctx.budget(1500, 40000))
     reqs, reals, metas = [], [], []
 
     def push(path, n, st, real, meta):
@@ -333,7 +344,7 @@ def correspondence(ctx):
 
     # ---- maps
     mreqs, mreals, mmetas = [], [], []
-    for _ in range(ctx.budget(1500, 20000)):
+    for _ in range(ctx.budget(1000, 20000)):
         k = rng.randint(0, 4)
         plen = rng.randint(0, 12)
         pos = sorted(rng.sample(range(0, plen + 3), min(k, plen + 3)))
@@ -366,7 +377,7 @@ def correspondence(ctx):
     def fstate(m):
         return dict(spans=[sstate(s) for s in m.spans], parent_length=int(m.parent_length), length=len(m))
 
-    for _ in range(ctx.budget(1500, 20000)):
+    for _ in range(ctx.budget(1000, 20000)):
         plen = rng.randint(0, 20)
         spans = []
         for _ in range(rng.randint(0, 4)):
